@@ -382,6 +382,17 @@ def family():
         [cf('note', '"n/a"', ('max_length', '50')), cf('qty', '0', ('null', 'false'))],
         [add('extra', '7'), cf('note', None, ('max_length', '30')), cf('score', '-1', ('null', 'false'))],
         [cf('qty', '0', ('null', 'false')), cf('score', '-1', ('null', 'false')), add('extra', '7')],
+        # nullable new columns with a declared value for the rows that exist - falsy values included
+        [{'t': 'AddField', 'model': 'Alpha', 'field': 'visits', 'ftype': 'IntegerField', 'initial': '0',
+          'attrs': [['null', 'true']]},
+         {'t': 'AddField', 'model': 'Alpha', 'field': 'active', 'ftype': 'BooleanField', 'initial': 'false',
+          'attrs': [['null', 'true']]},
+         {'t': 'AddField', 'model': 'Alpha', 'field': 'remark', 'ftype': 'CharField', 'initial': '""',
+          'attrs': [['max_length', '10'], ['null', 'true']]},
+         {'t': 'AddField', 'model': 'Alpha', 'field': 'stars', 'ftype': 'IntegerField', 'initial': '3',
+          'attrs': [['null', 'true']]}],
+        [{'t': 'AddField', 'model': 'Alpha', 'field': 'visits', 'ftype': 'IntegerField', 'initial': '0',
+          'attrs': [['null', 'true']]}],
         # a field whose column is not called like the field: NULLs filled in, values kept
         [cf('alias', '"A"', ('null', 'false'))],
         [cf('alias', '"A"', ('null', 'false')), add('extra', '7')],
